@@ -6,7 +6,7 @@ import ast
 from ..model import AnalysisError, src
 from ..paths import function_paths, walk_no_defs
 from ..callgraph import fmt
-from .. import sa, ctx as ctxmod, purity
+from .. import abshelp as H, sa, ctx as ctxmod, purity
 
 PRINT_CALLS = ('print', 'traceback.print_exc', 'traceback.print_exception', 'traceback.print_stack',
                'traceback.print_tb', 'logging.debug', 'logging.info', 'logging.warning', 'logging.error',
@@ -47,8 +47,8 @@ def run(model, res, tier):
     n = purity.check_region(res, c, 'R1', 'R2', reach, 'evaluation')
     res.floor('distinct mutation events in reachable code', n, 10)
     _positive_control(res)
-    _r3(model, res, c)
-    _r4(model, res, c)
+    H.safely(res, 'R3', 'r3', _r3, model, res, c)
+    H.safely(res, 'R4', 'r4', _r4, model, res, c)
     k = purity.check_memo(res, c, 'R5', reach, 'a function used during evaluation')
     from . import c03
     c03._r1(model, res, c, 'R6')
